@@ -280,6 +280,20 @@ Example C08_example_rejected :
   exists f, find_diff (lift_c ex_pol) (lift_ms ex_ms_bad) = Some f.
 Proof. exact example_rejected. Qed.
 
+(* the unit is part of a lock atom (height vs time, blocks vs 512 s): locks of different units are
+   never equivalent, and the miscompilation that serves after(500000100) from after(100)'s cache
+   entry (seeded change C08-3; ex_units_pol = or(and(pk(0),after(100)),and(pk(1),after(500000100))),
+   ex_units_bad = andor(pk(0),after(100),and_v(v:pk(1),after(100)))) is rejected with the world
+   nLockTime = 500000100 (a time): the policy's second branch holds, both branches of the output fail *)
+Example C08_example_units :
+  equivb (SAfter 100) (SAfter 500000100) = false
+  /\ equivb (SOlder 144) (SOlder (4194304 + 144)) = false
+  /\ equiv_dec (lift_c ex_units_pol) (lift_ms ex_units_bad) = false
+  /\ exists f, find_diff (lift_c ex_units_pol) (lift_ms ex_units_bad) = Some f
+               /\ fw_lock f = 500000100
+               /\ evalc (world_of f) ex_units_pol = true /\ evals (world_of f) (lift_ms ex_units_bad) = false.
+Proof. exact example_units. Qed.
+
 (* a world-level reading of the lock partition on the example: sequence 143 vs 144 *)
 Example C08_example_worlds :
   evalc (mkWorld (fun k => N.eqb k 1) (fun _ _ => false) 0 144) ex_pol = true
